@@ -443,47 +443,51 @@ class Configuration:
         if "__vars__" in cfg_parser.sections():
             self.update_vars({k: v for k, v in cfg_parser["__vars__"].items()})
 
-        # Add configuration entries
-        for cfg_section in cfg_parser.sections():
-            section, has_profile, profile = cfg_section.partition("__")
-            if not section:  # Skip dunder sections
-                continue
-            for key, value in cfg_parser[cfg_section].items():
-                # Handle meta-information
-                if ":" in key:
+        # Add configuration entries, the sections are updated also when an entry is rejected
+        try:
+            for cfg_section in cfg_parser.sections():
+                section, has_profile, profile = cfg_section.partition("__")
+                if not section:  # Skip dunder sections
                     continue
-                meta = {k.partition(":")[-1]: v for k, v in cfg_parser[cfg_section].items() if k.startswith(f"{key}:")}
+                for key, value in cfg_parser[cfg_section].items():
+                    # Handle meta-information
+                    if ":" in key:
+                        continue
+                    meta = {
+                        k.partition(":")[-1]: v for k, v in cfg_parser[cfg_section].items() if k.startswith(f"{key}:")
+                    }
 
-                # Create a configuration entry
-                self.update(
-                    section,
-                    _replace(key, replace_vars),
-                    value if value is None else _replace(value, replace_vars).replace("\n", " "),
-                    profile=profile if has_profile else None,
-                    source=str(file_path),
-                    meta=meta,
-                    allow_new=allow_new,
-                    _update_sections=False,
-                )
-
-        self._set_sections_for_profiles()
+                    # Create a configuration entry
+                    self.update(
+                        section,
+                        _replace(key, replace_vars),
+                        value if value is None else _replace(value, replace_vars).replace("\n", " "),
+                        profile=profile if has_profile else None,
+                        source=str(file_path),
+                        meta=meta,
+                        allow_new=allow_new,
+                        _update_sections=False,
+                    )
+        finally:
+            self._set_sections_for_profiles()
 
     def update_from_config_section(
         self, other_section: "ConfigurationSection", section: Optional[str] = None, allow_new: bool = True
     ) -> None:
         section = other_section.name if section is None else section
-        for key, entry in other_section.data.items():
-            self.update(
-                section,
-                key,
-                entry.str,
-                source=entry.source,
-                meta=entry.meta,
-                allow_new=allow_new,
-                _update_sections=False,
-            )
-
-        self._set_sections_for_profiles()
+        try:
+            for key, entry in other_section.data.items():
+                self.update(
+                    section,
+                    key,
+                    entry.str,
+                    source=entry.source,
+                    meta=entry.meta,
+                    allow_new=allow_new,
+                    _update_sections=False,
+                )
+        finally:
+            self._set_sections_for_profiles()
 
     def update_from_options(
         self,
@@ -496,35 +500,37 @@ class Configuration:
             options = sys.argv[1:]
 
         updated_options = set()
-        for option in options:
-            if not (option.startswith("--") and "=" in option):
-                continue
+        try:
+            for option in options:
+                if not (option.startswith("--") and "=" in option):
+                    continue
 
-            # Parse config name, section, key and value of the form name:section:key=value
-            opt_key, _, opt_value = option[2:].partition("=")
-            opt_section, _, opt_key = opt_key.rpartition(":")
-            opt_name, _, opt_section = opt_section.rpartition(":")
+                # Parse config name, section, key and value of the form name:section:key=value
+                opt_key, _, opt_value = option[2:].partition("=")
+                opt_section, _, opt_key = opt_key.rpartition(":")
+                opt_name, _, opt_section = opt_section.rpartition(":")
 
-            # Update current configuration
-            if opt_name and opt_name != self.name:
-                continue
-            if not opt_section:
-                opt_section = self.master_section.name
-            try:
-                self.update(
-                    opt_section,
-                    opt_key,
-                    opt_value,
-                    profile=profile,
-                    source=f"{source} ({option})",
-                    allow_new=allow_new,
-                    _update_sections=False,
-                )
-                updated_options.add(option)
-            except exceptions.MissingEntryError:
-                pass
+                # Update current configuration
+                if opt_name and opt_name != self.name:
+                    continue
+                if not opt_section:
+                    opt_section = self.master_section.name
+                try:
+                    self.update(
+                        opt_section,
+                        opt_key,
+                        opt_value,
+                        profile=profile,
+                        source=f"{source} ({option})",
+                        allow_new=allow_new,
+                        _update_sections=False,
+                    )
+                    updated_options.add(option)
+                except exceptions.MissingEntryError:
+                    pass
+        finally:
+            self._set_sections_for_profiles()
 
-        self._set_sections_for_profiles()
         return list(set(options) - updated_options)
 
     def update_from_dict(
@@ -535,10 +541,11 @@ class Configuration:
         allow_new: bool = True,
     ) -> None:
         section = self.master_section.name if section is None else section
-        for key, value in cfg_dict.items():
-            self.update(section, key, value, source=source, allow_new=allow_new, _update_sections=False)
-
-        self._set_sections_for_profiles()
+        try:
+            for key, value in cfg_dict.items():
+                self.update(section, key, value, source=source, allow_new=allow_new, _update_sections=False)
+        finally:
+            self._set_sections_for_profiles()
 
     def clear(self) -> None:
         """Clear the configuration"""
